@@ -3,7 +3,7 @@ import ast
 
 from ..core import AnalysisError, dotted, walk_no_nested, FuncTypes
 from ..cfg import CFG, cond_guards
-from ..util import calls_in, local_defs, depends_on, const_val, truth_under, names_in, param_names
+from ..util import tv_eval, calls_in, local_defs, depends_on, const_val, truth_under, names_in, param_names
 from .. import mergefacts as mf
 from .. import facts
 
@@ -167,8 +167,15 @@ def _run_base(ctx):
             raise AnalysisError('%s: recursive diffit(...) call not found' % fid)
         for c in rec:
             guards = cond_guards(g, repo.stmt_of(c))
-            atom = any(truth_under(t, pol, lambda e: isinstance(e, ast.Call) and isinstance(e.func, ast.Attribute) and e.func.attr == 'is_atomic') is False
-                       for t, pol in guards)
+            # can the recursion be reached with an atomic value for which no differ was configured explicitly?
+            def leaf(e):
+                if isinstance(e, ast.Call) and isinstance(e.func, ast.Attribute) and e.func.attr == 'is_atomic':
+                    return True
+                if isinstance(e, ast.Compare) and len(e.ops) == 1 and isinstance(e.ops[0], ast.In) and \
+                        isinstance(e.comparators[0], ast.Attribute) and e.comparators[0].attr == 'differs':
+                    return False    # `subpath in config.differs`: a differ the user installed for exactly this path wins over atomicity
+                return None
+            atom = any((lambda v: v is not None and v is not pol)(tv_eval(t, leaf, local_defs(fn))) for t, pol in guards)
             same = any(truth_under(t, pol, lambda e: isinstance(e, ast.Compare) and isinstance(e.ops[0], ast.Is) and
                                    all(isinstance(x, ast.Call) and dotted(x.func) == 'type' for x in [e.left, e.comparators[0]])) is True
                        for t, pol in guards)
